@@ -82,3 +82,47 @@ Proof. exact mem_file_agree. Qed.
 Print Assumptions C06_mem_file_agree.
 
 End StorageLevel.
+
+(* ======================= the collection layer on both kinds of storage =======================
+   PROVED HERE (theories/CollAgree.v; models as in Props/C05.v): for EVERY history of a storage-backed vector
+   (any element class with elem_law: u64, i64, String, ...), of the MapData interface of a storage-backed map and
+   of the GraphData interface of the graph storage — reloads and maintenance included — the run on the model of
+   storage.rs over the FILE-like byte store (FileStorage, FileStorageMemoryMapped: a drop rolls an open transaction
+   back) and the run over the MEMORY-like one (MemoryStorage) return the SAME list of observations, namely the
+   one of the plain list / table / arrays; unless one of them dies by a panic of the storage (a request beyond
+   2^64 bytes).  With C06_backends_agree (Props/C04.v: the three literal back-ends produce the observations of the
+   canonical byte stores for every operation list) this carries the agreement of the variants from the byte store
+   up through the collections.  NOT proved: the same for DbImpl's queries (L3); covered by the side-by-side runs. *)
+From Agdb Require Import Storage StorageSpec StorageProofs Collections CollWp CollVecBase CollElems CollVecHist CollMap CollMapHist
+  CollGraph CollGraphNew CollAgree.
+
+Theorem C06_vec_variants_agree :
+  forall (T : Type) (E : cv_elem T) (L : elem_law E) (l : list (cv_op T)), ops_ok T E L [] l ->
+    let rf := cp_run (st_step cdata ops_file) (h <~ cv_new ;; cv_run T E h l) s_init in
+    let rm := cp_run (st_step cdata ops_mem) (h <~ cv_new ;; cv_run T E h l) s_init in
+    snd rf = CrDead \/ snd rm = CrDead \/
+    exists hf hm, snd rf = CrOk (hf, snd (cl_run [] l)) /\ snd rm = CrOk (hm, snd (cl_run [] l)).
+Proof. exact cv_variants_agree. Qed.
+Print Assumptions C06_vec_variants_agree.
+
+Theorem C06_map_variants_agree :
+  forall (K V : Type) (EK : cv_elem K) (EV : cv_elem V) (LK : elem_law EK) (LV : elem_law EV) (kdef : K) (vdef : V),
+    el_valid LK kdef -> el_valid LV vdef ->
+  forall l : list (cm_op K V), Forall (mop_ok K V EK EV LK LV) l ->
+    let p := d <~ cm_new ;; cm_run K V EK EV kdef vdef d l in
+    let rf := cp_run (st_step cdata ops_file) p s_init in
+    let rm := cp_run (st_step cdata ops_mem) p s_init in
+    snd rf = CrDead \/ snd rm = CrDead \/
+    exists df dm, snd rf = CrOk (df, snd (ct_run K V kdef vdef (ct_empty K V) l)) /\
+                  snd rm = CrOk (dm, snd (ct_run K V kdef vdef (ct_empty K V) l)).
+Proof. exact cm_variants_agree. Qed.
+Print Assumptions C06_map_variants_agree.
+
+Theorem C06_graph_variants_agree :
+  forall l : list cg_op, gops_ok ga_init l ->
+    let rf := cp_run (st_step cdata ops_file) (d <~ cg_new ;; cg_run d l) s_init in
+    let rm := cp_run (st_step cdata ops_mem) (d <~ cg_new ;; cg_run d l) s_init in
+    snd rf = CrDead \/ snd rm = CrDead \/
+    exists df dm, snd rf = CrOk (df, snd (ga_run ga_init l)) /\ snd rm = CrOk (dm, snd (ga_run ga_init l)).
+Proof. exact cg_variants_agree. Qed.
+Print Assumptions C06_graph_variants_agree.
